@@ -47,6 +47,7 @@ type Params struct {
 	Hostile    int     `json:"hostile_pct"`
 	UseLevelDB bool    `json:"leveldb,omitempty"`
 	NoProbe    bool    `json:"no_probe,omitempty"`
+	Kind       string  `json:"kind,omitempty"` // "" = random omnibus history; "purge" = scripted long-idle history (purge.go)
 }
 
 // Hooks let another monitor observe the omnibus history block by block.
@@ -144,6 +145,10 @@ func (m *mon) note(s string) {
 func run(c fw.Case, tier string, rec *fw.Recorder) {
 	var p params
 	c.Decode(&p)
+	if p.Kind == "purge" {
+		runPurge(c, p, rec)
+		return
+	}
 	Drive(c, p, rec, Hooks{})
 }
 
@@ -701,6 +706,14 @@ func cases(tier string, seed int64) []fw.Case {
 		p := params{Stakes: stakes[i%len(stakes)], NChains: 1 + i%2, Blocks: blocks, Focus: foci[i%len(foci)], Hostile: []int{30, 60, 90}[i%3]}
 		cs = append(cs, fw.MkCase(fmt.Sprintf("omni-%03d", i), seed*15485863+int64(i), p))
 	}
+	np := 4
+	if tier == "thorough" {
+		np = 16
+	}
+	for i := 0; i < np; i++ {
+		p := params{Stakes: stakes[i%len(stakes)], NChains: 1, Focus: "jobs", Hostile: 30, Kind: "purge"}
+		cs = append(cs, fw.MkCase(fmt.Sprintf("purge-%02d", i), seed*32452843+int64(i), p))
+	}
 	return cs
 }
 
@@ -708,7 +721,7 @@ func init() {
 	fw.Register(&fw.Prop{
 		ID:    "C09",
 		Level: "exploration",
-		Rule: "seeded omnibus ABCI histories of the real app (bridge transfers, jobs, licences; pigeons signing, estimating, relaying, attesting, claiming, confirming; governance-set fees, taxes, weights, limits, nonce overrides) in which every sender-controlled value is drawn from hostile generators (0, 1, 2^32, 2^63, 2^64-1; negative/huge/malformed decimals; nil / empty-type / garbage / wrong-type / short proofs; 0..200 kB payloads; malformed versions, addresses, balances) and stays in the state only if the chain accepted the tx; oracle = recover()+error check around every FinalizeBlock, plus BeginBlock/EndBlock of every Paloma module run on throw-away forks at the next heights = 0 mod 10/50/300/303 and at 10 000, 15 150, 30 300, 303 000. " +
+		Rule: "seeded omnibus ABCI histories of the real app (bridge transfers, jobs, licences; pigeons signing, estimating, relaying, attesting, claiming, confirming; governance-set fees, taxes, weights, limits, nonce overrides) in which every sender-controlled value is drawn from hostile generators (0, 1, 2^32, 2^63, 2^64-1; negative/huge/malformed decimals; nil / empty-type / garbage / wrong-type / short proofs; 0..200 kB payloads; malformed versions, addresses, balances) and stays in the state only if the chain accepted the tx; oracle = recover()+error check around every FinalizeBlock, plus BeginBlock/EndBlock of every Paloma module run on throw-away forks at the next heights = 0 mod 10/50/300/303 and at 10 000, 15 150, 30 300, 303 000; plus scripted long-idle histories (purge-NN: early honest deliveries, then a flood of > 1000 job executions nobody relays, then one late delivery, so the relay-metrics purge runs over validators whose whole history lies outside the scoring window). " +
 			"evaluations = blocks executed + module probes; distinct_nontrivial = distinct accepted (actor-kind, operation, hostile value) descriptions + distinct WARN/ERROR log lines reached (branch-coverage proxy)",
 		Assumptions: []string{
 			"only states reached through accepted transactions and the keeper functions governance handlers call; panics inside transaction execution are recovered by baseapp and are not violations",
@@ -717,7 +730,7 @@ func init() {
 		},
 		Cases:       cases,
 		Run:         run,
-		MinCounters: []string{"blocks", "probes", "accepted:evidence", "accepted:estimate", "accepted:relayer-fee", "accepted:public-access", "height_class_%300", "height_class_%303"},
+		MinCounters: []string{"blocks", "probes", "accepted:evidence", "accepted:estimate", "accepted:relayer-fee", "accepted:public-access", "height_class_%300", "height_class_%303", "purge:validators_purged"},
 		TimeoutS:    1500,
 	})
 }
